@@ -520,6 +520,18 @@ func TestC05(t *testing.T) {
 
 	hx.Rapid(r, t, "api_sequences", r.N(1500, 20000), genC05API, c05APIProp(t, r))
 	hx.Rapid(r, t, "dial_retry_storm", r.N(60, 1500), genC05Storm, c05StormProp(t, r, "dial_retry_storm"))
+	// a stop that lands in the write of a timer-driven KEEPALIVE / Hold Timer Expired (shared with C10)
+	hx.Enum(r, t, "stop_when_session_timer_is_due", 0, func(yield func(c10TimerDue) bool) {
+		for _, timer := range []string{"keepalive", "hold"} {
+			for _, api := range []string{"close", "del"} {
+				for _, after := range []int64{0, 10, 40, 120} {
+					if !yield(c10TimerDue{Timer: timer, API: api, Out: after%20 == 0, SpinUs: 200, AfterUs: after, RHold: 3}) {
+						return
+					}
+				}
+			}
+		}
+	}, c10TimerDueProp(t, r, "stop_when_session_timer_is_due"))
 }
 
 func FuzzC05Decoders(f *testing.F) {
